@@ -35,6 +35,9 @@ type optSet struct {
 var optSets = []optSet{
 	{Name: "default"},
 	{Name: "htf=sha3", HTF: sha3.New256},
+	{Name: "htf=sha512", HTF: sha512.New},         // digest wider than a field element
+	{Name: "htf=sha384+statzk", HTF: sha512.New384, StatZK: true},
+	{Name: "htf=sha224", HTF: sha256.New224},       // digest narrower than a field element
 	{Name: "chal=sha512", Chal: sha512.New},
 	{Name: "fold=sha3", Fold: sha3.New256},
 	{Name: "statzk", StatZK: true},
@@ -146,7 +149,7 @@ const (
 
 var scNames = []string{"valid", "invalid-witness", "hint-error", "entropy-error", "entropy-short-read"}
 
-var c03Feat = GenFeat{Commit: true, Lookup: true, Range: true, Hint: true, Wide: true, Bits: true, MaxOps: 9, MinOps: 1}
+var c03Feat = GenFeat{Commit: true, Lookup: true, Range: true, Hint: true, Wide: true, Bits: true, ScaledBool: true, MaxOps: 9, MinOps: 1}
 
 type c03ref struct {
 	res   proveRes
